@@ -158,7 +158,7 @@ func VerifC19MergeAccounts() {
 	blockCount, blockFees := vr.U64("block.txncount"), vr.U64("block.fees")
 	block.txnCount, block.feesCollected.Raw = blockCount, blockFees
 
-	child := block.child(vr.Choice("hint", 3))
+	child := block.child(2)
 	// the child writes up to 2 (thorough: 3) account records, to account 1 (which the block
 	// state may have written), 2 or 3 (whose ledger lookup may fail); a later write may
 	// hit the same account again
@@ -166,13 +166,12 @@ func VerifC19MergeAccounts() {
 	labels := [3]string{"put0", "put1", "put2"}
 	for k := 0; k < n; k++ {
 		i := 1 + vr.Choice(labels[k]+".addr", 3)
+		// arbitrary new record, or the zero record (= account closed)
 		d := verifAccount(labels[k])
 		if vr.Bool(labels[k] + ".close") {
-			child.CloseAccount(verifAddr(i))
 			d = ledgercore.AccountData{}
-		} else {
-			child.Put(verifAddr(i), d)
 		}
+		child.Put(verifAddr(i), d)
 		if gc.has[i] {
 			vr.Reach("twice")
 		}
